@@ -194,3 +194,55 @@ func VerifC18InnerFail() {
 	}
 	verifReach("done")
 }
+
+// verifSlowConn is an inner connection whose Close takes time: other goroutines run
+// while it is in progress.
+type verifSlowConn struct {
+	net.Conn
+	closes atomic.Int64
+}
+
+func (c *verifSlowConn) Close() error {
+	c.closes.Add(1)
+	verifYield()
+	return nil
+}
+func (c *verifSlowConn) RemoteAddr() net.Addr {
+	return &net.TCPAddr{IP: net.IP{192, 0, 2, 9}, Port: 4242}
+}
+
+type verifSlowLsnr struct{ net.Listener }
+
+func (l *verifSlowLsnr) Accept() (net.Conn, error) { return &verifSlowConn{}, nil }
+func (l *verifSlowLsnr) Close() error              { return nil }
+
+// VerifC18ConcurrentClose: a connection closed by two goroutines at the same time
+// (the handler and the server's deferred close) is released exactly once.
+//
+//verif:harness name=H18c-concurrent-close tier=quick,thorough bounds="stop in 1..2; one accepted connection closed by 2 or 3 goroutines that overlap inside the underlying Close; then as many accepts as the limit allows" reach=done switches=0
+//verif:assume goroutines switch at the underlying Close (explicit scheduling point), at blocking operations and when finished; data races outside the claim
+func VerifC18ConcurrentClose() {
+	stop := uint64(1 + verifChoice(2))
+	lim, err := New(&Config{Logger: slogutil.NewDiscardLogger(), Stop: stop, Resume: stop})
+	verifAssume(err == nil)
+	si := &dnsserver.ServerInfo{Name: "s", Addr: "a", Proto: dnsserver.ProtoDoT}
+	l := lim.Limit(&verifSlowLsnr{}, si)
+	c, aerr := l.Accept()
+	verifAssume(aerr == nil)
+	inner := c.(*limitConn).Conn.(*verifSlowConn)
+	closers := 2 + verifChoice(2)
+	var okCloses atomic.Int64
+	for k := 0; k < closers; k++ {
+		go func() {
+			if c.Close() == nil {
+				okCloses.Add(1)
+			}
+		}()
+	}
+	verifRunAll()
+	verifAssert("underlying-connection-closed-once", inner.closes.Load() == 1)
+	verifAssert("exactly-one-close-succeeds", okCloses.Load() == 1)
+	verifAssert("counter-released-exactly-once", lim.counter.current == 0)
+	verifAssert("limiter-accepting-after-release", lim.counter.isAccepting)
+	verifReach("done")
+}
